@@ -266,7 +266,8 @@ theorem restriction_denies_auth {w : World} {msg : Msg} (hh : Has m k w) (hauth 
 /-- a successful ante of a tx that `m` signs through session `k` -/
 theorem ante_inv {w wa : World} {tx : Tx} (hauth : tx.auth.lookup m = some k) (hm : m ∈ signersOf tx.msgs)
     (hwf : ∀ s, lookupSess w.sess (m, k) = some s → WFS s) (h : ante w tx = .ok wa) :
-    TxInv m k d w wa ∧ ∀ msg ∈ tx.msgs, msg.signer = m → alwaysDenied msg = false := by
+    TxInv m k d w wa ∧ (∀ msg ∈ tx.msgs, msg.signer = m → alwaysDenied msg = false) ∧
+      tx.msgs.all (restrictionOK tx.auth wa) = true := by
   unfold ante at h
   simp only at h
   split at h
@@ -286,7 +287,7 @@ theorem ante_inv {w wa : World} {tx : Tx} (hauth : tx.auth.lookup m = some k) (h
           split at h
           · rename_i hall
             cases h
-            refine ⟨i1.trans i2, fun msg hmsg hs => ?_⟩
+            refine ⟨i1.trans i2, fun msg hmsg hs => ?_, hall⟩
             exact restriction_denies_auth i2.has hauth ((List.all_eq_true.mp hall) msg hmsg) hs
           · cases h
 
